@@ -667,6 +667,8 @@ func Gen(run *vlib.Run, seed uint64, tier string) {
 	genGlyf(run, r.Fork("glyf"), tier)
 	genWd(run, r.Fork("wd"), tier)
 	genRh(run, r.Fork("rh"), tier)
+	genCfont(run, r.Fork("cfont"), tier)
+	genClone(run, r.Fork("clone"), tier)
 	for k, v := range stats {
 		run.Extra[k] = v
 	}
